@@ -74,4 +74,10 @@ PROPS = {
         ],
         "trusted_extra": ["priority-queue crate: modelled as key->priority map with arg-min pop; contract assumed"],
     },
+    "C06": {
+        "modules": ["Resolved.Props.C06"],
+        "streams": [{"name": "upstream", "quick": 24000, "thorough": 500000}],
+        "trivial_tags": [r":bad-op"],
+        "assumptions": ["the three cache.insert_all call sites insert exactly the validated record lists (read from the code; covered end-to-end by the resolver streams of C07)"],
+    },
 }
